@@ -290,4 +290,373 @@ theorem parseQuantity_indGA_loc (q : List Tok) (hr : Gen.EXT_RANGE_VALUES ∈ G 
 
 end quantity
 
+/-! ### the component parsers -/
+section comp
+variable {G : List Nat}
+
+theorem noModAhead_at {s : BP α} (h : noModAhead s.rest = true) :
+    ∀ t, s.toks[s.cur]? = some t → isModStart t.kind = false := by
+  intro t ht
+  unfold noModAhead BP.rest at h
+  rw [List.head?_drop, ht] at h
+  simpa using h
+
+/-- `modifiers()`: both of its flags are in `G`, or there is nothing for it to consume -/
+theorem modifiersP_indG_loc (s : BP α)
+    (h : (Gen.EXT_COMPONENT_MODIFIERS ∈ G ∧ Gen.EXT_INTERMEDIATE_PREPARATIONS ∈ G) ∨ noModAhead s.rest = true) :
+    IndG G (modifiersP (α := α)) s := by
+  rcases h with h | h
+  · exact (modifiersP_indGA h.1 h.2).all s
+  · have h0 := modifiersP_noop s (noModAhead_at h)
+    constructor
+    · intro e _
+      rw [modifiersP_noop_ext s (noModAhead_at h) e, h0]
+    · rw [h0]
+    · rw [h0]
+    · rw [h0]
+
+theorem parseModifiers_indGA_loc (mtoks : List Tok) (pos : Nat)
+    (h : Gen.EXT_INTERMEDIATE_PREPARATIONS ∈ G ∨ mtoks = []) : IndGA G (parseModifiers (α := α) mtoks pos) := by
+  rcases h with h | h
+  · exact parseModifiers_indGA h mtoks pos
+  · subst h; exact IndGA.of_indA (parseModifiers_nil_indA pos)
+
+theorem parseAlias_indGA_loc (c : String) (toks : List Tok) (off : Nat)
+    (h : Gen.EXT_COMPONENT_ALIAS ∈ G ∨ toks.any (fun t => t.kind == .or) = false) :
+    IndGA G (parseAlias (α := α) c toks off) := by
+  rcases h with h | h
+  · exact parseAlias_indGA h c toks off
+  · exact IndGA.of_indA (parseAlias_indA c toks off h)
+
+/-- what the clauses give for the body `comp_body` returns, wherever it started -/
+theorem local_body {cs : CharSpec} {ts : List Tok} (h : LocalTo G cs ts) {s : BP α} (hs : s.toks = ts)
+    {b : Body} (hb : (compBody s).1 = some b) :
+    (Gen.EXT_COMPONENT_ALIAS ∈ G ∨ b.name.any (fun t => t.kind == .or) = false) ∧
+    (∀ qt, b.quantity = some qt →
+      (Gen.EXT_RANGE_VALUES ∈ G ∨ noMinus qt = true) ∧ (Gen.EXT_ADVANCED_UNITS ∈ G ∨ advNone qt = true)) := by
+  rcases compBody_fact s b hb with hl | ⟨hl, hq, hn, hne⟩
+  · refine ⟨?_, ?_⟩
+    · rcases h.alias with ha | ha
+      · exact Or.inl ha
+      · right
+        have := allPos_rest (α := α) ha s hs
+        rw [hl] at this
+        simpa using this
+    · intro qt hqt
+      refine ⟨?_, ?_⟩
+      · rcases h.range with hr | hr
+        · exact Or.inl hr
+        · right
+          have := allPos_rest (α := α) (p := fun r => match longBody r with
+            | some (_, some q) => noMinus q
+            | _ => true) hr s hs
+          rw [hl, hqt] at this
+          exact this
+      · rcases h.adv with hr | hr
+        · exact Or.inl hr
+        · right
+          have := allPos_rest (α := α) (p := fun r => match longBody r with
+            | some (_, some q) => advNone q
+            | _ => true) hr s hs
+          rw [hl, hqt] at this
+          exact this
+  · refine ⟨Or.inr ?_, ?_⟩
+    · rw [List.any_eq_false]
+      intro x hx
+      rw [hn] at hx
+      have hall := List.all_takeWhile (l := s.rest) (p := fun t => isShortTok t.kind)
+      have := List.all_eq_true.mp hall x hx
+      revert this
+      unfold isShortTok
+      cases x.kind <;> simp
+    · intro qt hqt; rw [hq] at hqt; cases hqt
+
+/-- a timer that satisfies the TIMER_REQUIRES_TIME clause has a quantity -/
+theorem timerHasQ_body {s : BP α} (hc : timerHasQ s.rest = true) {b : Body} (hb : (compBody s).1 = some b) :
+    b.quantity ≠ none := by
+  unfold timerHasQ at hc
+  simp only [Bool.and_eq_true] at hc
+  obtain ⟨-, hc⟩ := hc
+  rcases compBody_fact s b hb with hl | ⟨hl, hq, hn, hne⟩
+  · rw [hl] at hc
+    intro hq; rw [hq] at hc; cases hc
+  · rw [hl] at hc
+    intro _
+    cases hr : s.rest with
+    | nil => rw [hr] at hn; exact hne (by rw [hn]; rfl)
+    | cons t r =>
+      rw [hr] at hc hn
+      simp only [List.head?_cons, Bool.not_eq_true'] at hc
+      rw [List.takeWhile_cons, hc] at hn
+      exact hne (by rw [hn]; rfl)
+
+/-- the clauses at a marker token -/
+theorem local_after_marker {cs : CharSpec} {s : BP α} {t : Tok} (h : LocalTo G cs s.toks)
+    (ht : s.toks[s.cur]? = some t) (hm : isMarker t.kind = true) :
+    ((Gen.EXT_COMPONENT_MODIFIERS ∈ G ∧ Gen.EXT_INTERMEDIATE_PREPARATIONS ∈ G) ∨
+      noModAhead ({ s with cur := s.cur + 1 } : BP α).rest = true) ∧
+    (t.kind = .tilde → Gen.EXT_TIMER_REQUIRES_TIME ∈ G ∨ timerHasQ ({ s with cur := s.cur + 1 } : BP α).rest = true) := by
+  refine ⟨?_, ?_⟩
+  · rcases h.mods with hg | hg
+    · exact Or.inl hg
+    · exact Or.inr (markerAll_at hg ht hm)
+  · intro hk
+    rcases h.timer with hg | hg
+    · exact Or.inl hg
+    · right
+      have := markerAll_at hg ht hm
+      rw [hk] at this
+      simpa [BP.rest] using this
+
+/-- the rest of `timer` after `comp_body`, cut into pieces (verbatim) -/
+def timerQtyL (quantity : Option (List Tok)) : P α (Option (Loc (PQuantity α))) :=
+  match quantity with
+  | some qt => do
+    let q ← parseQuantity qt
+    if q.quantity.val.unit.isNone then
+      perr "timer-missing-unit" [Span.pos q.quantity.val.value.value.span.stop]
+    pure (some q.quantity)
+  | none => pure none
+
+def timerFinishL (start stop nameOffset : Nat) (close : Option Span) (name : Text) (cs : CharSpec)
+    (quantity0 : Option (Loc (PQuantity α))) : P α (Option (Ev α)) := do
+  let mut quantity := quantity0
+  if quantity.isNone && (← hasExt Gen.EXT_TIMER_REQUIRES_TIME) then
+    let span := close.getD (Span.pos name.span.stop)
+    perr "timer-missing-quantity" [span]
+    quantity := some recoverPQuantity
+  let nameO := if name.isTextEmpty cs then none else some name
+  if nameO.isNone && quantity.isNone then
+    let span : Span := match close with
+      | some s => ⟨nameOffset, s.stop⟩
+      | none => Span.pos nameOffset
+    perr "timer-neither-name-nor-quantity" [span]
+    quantity := some recoverPQuantity
+  return some (.timer ⟨⟨nameO, quantity⟩, ⟨start, stop⟩⟩)
+
+def timerTailL (start stop nameOffset : Nat) (mtoks name : List Tok) (close : Option Span)
+    (quantity : Option (List Tok)) : P α (Option (Ev α)) := do
+  if !mtoks.isEmpty then perr "modifiers-not-allowed:timer" [tokensSpan mtoks]
+  if ← hasExt Gen.EXT_COMPONENT_ALIAS then
+    match name.findIdx? (fun t => t.kind == .or) with
+    | some i =>
+      let sep := (name[i]?).getD dummyTok
+      perr "alias-not-allowed:timer" [⟨sep.start, ((name.getLast?).getD sep).stop⟩]
+    | none => pure ()
+  checkNoteTimer
+  let nm ← bpText nameOffset name
+  let cs := (← get).cs
+  let q ← timerQtyL quantity
+  timerFinishL start stop nameOffset close nm cs q
+
+theorem timerQtyL_some (quantity : Option (List Tok)) (h : quantity ≠ none) (s : BP α) :
+    ((timerQtyL (α := α) quantity) s).1.isNone = false := by
+  cases quantity with
+  | none => exact absurd rfl h
+  | some qt =>
+    unfold timerQtyL
+    dsimp only
+    rw [P_bind_run]
+    split <;> rfl
+
+theorem timerFinishL_indGA (start stop nameOffset : Nat) (close : Option Span) (name : Text) (cs : CharSpec)
+    (q : Option (Loc (PQuantity α))) (h : Gen.EXT_TIMER_REQUIRES_TIME ∈ G ∨ q.isNone = false) :
+    IndGA G (timerFinishL start stop nameOffset close name cs q) := by
+  unfold timerFinishL
+  refine IndGA.hasExtBind' ?_ ?_
+  · rcases h with h | h
+    · exact Or.inl h
+    · right; intro b; simp only [h, Bool.false_and]
+  · intro b
+    indg_auto
+
+theorem timerTailL_indGA (start stop nameOffset : Nat) (mtoks name : List Tok) (close : Option Span)
+    (quantity : Option (List Tok))
+    (hor : Gen.EXT_COMPONENT_ALIAS ∈ G ∨ name.any (fun t => t.kind == .or) = false)
+    (hqc : ∀ qt, quantity = some qt →
+      (Gen.EXT_RANGE_VALUES ∈ G ∨ noMinus qt = true) ∧ (Gen.EXT_ADVANCED_UNITS ∈ G ∨ advNone qt = true))
+    (hqn : Gen.EXT_TIMER_REQUIRES_TIME ∈ G ∨ quantity ≠ none) :
+    IndGA G (timerTailL (α := α) start stop nameOffset mtoks name close quantity) := by
+  have hq : IndGA G (timerQtyL (α := α) quantity) := by
+    unfold timerQtyL
+    cases quantity with
+    | none => exact IndGA.pure _
+    | some qt =>
+      have a4 := parseQuantity_indGA_loc (α := α) qt (hqc qt rfl).1 (hqc qt rfl).2
+      dsimp only
+      indg_auto
+  have rest : IndGA G (do
+      checkNoteTimer
+      let nm ← bpText nameOffset name
+      let cs := (← get).cs
+      let q ← timerQtyL (α := α) quantity
+      timerFinishL start stop nameOffset close nm cs q) := by
+    apply IndGA.bind (IndGA.of_indA checkNoteTimer_indA); intro _
+    apply IndGA.bind (IndGA.of_indA (bpText_indA _ _)); intro nm
+    refine IndGA.getBind (by intro _ _; rfl) ?_; intro st
+    rcases hqn with hg | hg
+    · apply IndGA.bind hq; intro q
+      exact timerFinishL_indGA _ _ _ _ _ _ _ (Or.inl hg)
+    · refine IndGA.bindR (fun a => a.isNone = false) hq (timerQtyL_some quantity hg) ?_
+      intro q hqq
+      exact timerFinishL_indGA _ _ _ _ _ _ _ (Or.inr hqq)
+  unfold timerTailL
+  dsimp only
+  split
+  all_goals (try (apply IndGA.bind (IndGA.of_indA (perr_indA _ _)); intro _))
+  all_goals
+    refine IndGA.hasExtBind' ?_ ?_
+    · rcases hor with h | h
+      · exact Or.inl h
+      · right; intro b
+        cases b
+        · rfl
+        · simp only [findIdx_none_of_any_false h, ite_self]
+    · intro b
+      split
+      · split
+        · apply IndGA.bind (IndGA.of_indA (perr_indA _ _)); intro _
+          exact rest
+        · exact rest
+      · exact rest
+
+theorem ingredientP_indG_loc (s : BP α) (h : LocalTo G s.cs s.toks) : IndG G (ingredientP (α := α)) s := by
+  unfold ingredientP
+  refine IndG.bindRO currentOffset_indA (by rw [currentOffset_run]) ?_
+  intro start
+  refine IndG.bindS (IndG.of_ind ((consumeK_indA _).all s)) (consumeK_fact .at s) ?_
+  intro r s1 ht1 _ _ hq
+  cases r with
+  | none => exact IndG.pure _ _
+  | some t =>
+    obtain ⟨htok, hk, rfl⟩ := hq
+    have hmk := (local_after_marker h htok (by rw [hk]; rfl)).1
+    dsimp only
+    refine IndG.bindRO currentOffset_indA (by rw [currentOffset_run]) ?_
+    intro modPos
+    refine IndG.bindS (modifiersP_indG_loc _ hmk)
+      (Q := fun r _ => Gen.EXT_INTERMEDIATE_PREPARATIONS ∈ G ∨ r = []) ?_ ?_
+    · unfold Sat
+      rcases hmk with hg | hg
+      · exact Or.inl hg.2
+      · right; rw [modifiersP_noop _ (noModAhead_at hg)]
+    intro mtoks s2 ht2 _ _ hmt
+    refine IndG.bindRO currentOffset_indA (by rw [currentOffset_run]) ?_
+    intro nameOffset
+    refine IndG.bindS (IndG.of_ind (compBody_indA.all s2)) (Q := fun r _ => r = (compBody s2).1) rfl ?_
+    intro r s3 ht3 _ _ hr
+    cases r with
+    | none => exact IndG.pure _ _
+    | some body =>
+      obtain ⟨hor, hqc⟩ := local_body h (s := s2) ht2 hr.symm
+      have a2 := fun pos => parseModifiers_indGA_loc (α := α) mtoks pos hmt
+      obtain ⟨name, close, quantity⟩ := body
+      dsimp only at hor hqc ⊢
+      have a3 := fun c off => parseAlias_indGA_loc (α := α) (G := G) c name off hor
+      cases quantity with
+      | none =>
+        dsimp only
+        refine (?_ : IndGA G _).all s3
+        indg_auto
+        all_goals first | exact a2 _ | exact a3 _ _
+      | some qt =>
+        have a4 := parseQuantity_indGA_loc (α := α) qt (hqc qt rfl).1 (hqc qt rfl).2
+        dsimp only
+        refine (?_ : IndGA G _).all s3
+        indg_auto
+        all_goals first | exact a2 _ | exact a3 _ _ | exact a4
+
+theorem cookwareP_indG_loc (s : BP α) (h : LocalTo G s.cs s.toks) : IndG G (cookwareP (α := α)) s := by
+  unfold cookwareP
+  refine IndG.bindRO currentOffset_indA (by rw [currentOffset_run]) ?_
+  intro start
+  refine IndG.bindS (IndG.of_ind ((consumeK_indA _).all s)) (consumeK_fact .hash s) ?_
+  intro r s1 ht1 _ _ hq
+  cases r with
+  | none => exact IndG.pure _ _
+  | some t =>
+    obtain ⟨htok, hk, rfl⟩ := hq
+    have hmk := (local_after_marker h htok (by rw [hk]; rfl)).1
+    dsimp only
+    refine IndG.bindRO currentOffset_indA (by rw [currentOffset_run]) ?_
+    intro modPos
+    refine IndG.bindS (modifiersP_indG_loc _ hmk)
+      (Q := fun r _ => Gen.EXT_INTERMEDIATE_PREPARATIONS ∈ G ∨ r = []) ?_ ?_
+    · unfold Sat
+      rcases hmk with hg | hg
+      · exact Or.inl hg.2
+      · right; rw [modifiersP_noop _ (noModAhead_at hg)]
+    intro mtoks s2 ht2 _ _ hmt
+    refine IndG.bindRO currentOffset_indA (by rw [currentOffset_run]) ?_
+    intro nameOffset
+    refine IndG.bindS (IndG.of_ind (compBody_indA.all s2)) (Q := fun r _ => r = (compBody s2).1) rfl ?_
+    intro r s3 ht3 _ _ hr
+    cases r with
+    | none => exact IndG.pure _ _
+    | some body =>
+      obtain ⟨hor, hqc⟩ := local_body h (s := s2) ht2 hr.symm
+      have a2 := fun pos => parseModifiers_indGA_loc (α := α) mtoks pos hmt
+      obtain ⟨name, close, quantity⟩ := body
+      dsimp only at hor hqc ⊢
+      have a3 := fun c off => parseAlias_indGA_loc (α := α) (G := G) c name off hor
+      cases quantity with
+      | none =>
+        dsimp only
+        refine (?_ : IndGA G _).all s3
+        indg_auto
+        all_goals first | exact a2 _ | exact a3 _ _
+      | some qt =>
+        have a4 := parseQuantity_indGA_loc (α := α) qt (hqc qt rfl).1 (hqc qt rfl).2
+        dsimp only
+        refine (?_ : IndGA G _).all s3
+        indg_auto
+        all_goals first | exact a2 _ | exact a3 _ _ | exact a4
+
+
+theorem timerP_indG_loc (s : BP α) (h : LocalTo G s.cs s.toks) : IndG G (timerP (α := α)) s := by
+  unfold timerP
+  refine IndG.bindRO currentOffset_indA (by rw [currentOffset_run]) ?_
+  intro start
+  refine IndG.bindS (IndG.of_ind ((consumeK_indA _).all s)) (consumeK_fact .tilde s) ?_
+  intro r s1 ht1 _ _ hq
+  cases r with
+  | none => exact IndG.pure _ _
+  | some t =>
+    obtain ⟨htok, hk, rfl⟩ := hq
+    obtain ⟨hmk, htm⟩ := local_after_marker h htok (by rw [hk]; rfl)
+    have htm := htm hk
+    dsimp only
+    refine IndG.bindS (modifiersP_indG_loc _ hmk)
+      (Q := fun r s' => Gen.EXT_TIMER_REQUIRES_TIME ∈ G ∨ timerHasQ s'.rest = true) ?_ ?_
+    · unfold Sat
+      rcases htm with hg | hg
+      · exact Or.inl hg
+      · right
+        unfold timerHasQ at hg
+        simp only [Bool.and_eq_true] at hg
+        rw [modifiersP_noop _ (noModAhead_at hg.1)]
+        unfold timerHasQ
+        simp only [Bool.and_eq_true]
+        exact hg
+    intro mtoks s2 ht2 _ _ hmt
+    refine IndG.bindRO currentOffset_indA (by rw [currentOffset_run]) ?_
+    intro nameOffset
+    refine IndG.bindS (IndG.of_ind (compBody_indA.all s2)) (Q := fun r _ => r = (compBody s2).1) rfl ?_
+    intro r s3 ht3 _ _ hr
+    cases r with
+    | none => exact IndG.pure _ _
+    | some body =>
+      obtain ⟨hor, hqc⟩ := local_body h (s := s2) ht2 hr.symm
+      have hqn : Gen.EXT_TIMER_REQUIRES_TIME ∈ G ∨ body.quantity ≠ none := by
+        rcases hmt with hg | hg
+        · exact Or.inl hg
+        · exact Or.inr (timerHasQ_body hg hr.symm)
+      obtain ⟨name, close, quantity⟩ := body
+      dsimp only at hor hqc hqn ⊢
+      refine (?_ : IndGA G _).all s3
+      apply IndGA.bind (IndGA.of_indA currentOffset_indA); intro stop
+      exact timerTailL_indGA start stop nameOffset mtoks name close quantity hor hqc hqn
+
+end comp
+
 end Cook
